@@ -127,13 +127,20 @@ func (c context) findImport(alias string) (string, bool) {
 }
 
 func (c context) findVariable(name string, prefix string, global bool) (Variable, bool) {
-	prefixedName, err := c.buildPrefixedName(name, prefix, global, true)
+	// Global variables of an imported file are stored under their prefixed name. If a name is not
+	// found as is (from within a function or a block), it is therefore looked up with the prefix.
+	for _, prefixed := range []bool{global, true} {
+		prefixedName, err := c.buildPrefixedName(name, prefix, prefixed, true)
 
-	if err != nil {
-		return Variable{}, false
+		if err != nil {
+			return Variable{}, false
+		}
+
+		if variable, exists := c.variables[prefixedName]; exists {
+			return variable, true
+		}
 	}
-	variable, exists := c.variables[prefixedName]
-	return variable, exists
+	return Variable{}, false
 }
 
 func (c context) findFunction(name string, prefix string) (FunctionDefinition, bool) {
